@@ -132,7 +132,9 @@ DeflateRule == [][(NewAckStep /\ InRecovery) => cwnd' = RPlus(ssth, RN(M))]_vars
 NewAckResets == [][NewAckStep => dup' = 0 /\ ssth' = ssth /\ ntx' = ntx]_vars
 EarlyDupRule == [][(DupStep /\ dup' < 3) => cwnd' = cwnd /\ ssth' = ssth /\ ntx' = ntx]_vars
 ThirdDupRule == [][(DupStep /\ dup' = 3) => /\ ssth' = Half(cwnd) /\ cwnd' = RPlus(ssth', RN(3 * M))
-                                            /\ ntx' = ntx + 1 /\ last' = [k |-> "fast", seq |-> la]]_vars
+                                            \* the missing segment is retransmitted -- if there is one
+                                            /\ IF la < ns THEN ntx' = ntx + 1 /\ last' = [k |-> "fast", seq |-> la]
+                                                          ELSE ntx' = ntx]_vars
 FurtherDupRule == [][(DupStep /\ dup' > 3) => cwnd' = RPlus(cwnd, RN(M)) /\ ssth' = ssth]_vars
 TimeoutRule == [][TimeoutStep => /\ cwnd' = RN(M) /\ rto' = RScale(2, rto) /\ last'.seq < ns
                                  /\ (ssth' = ssth \/ ssth' = Half(cwnd))]_vars
